@@ -34,26 +34,8 @@ mod verif_c10_rcvd_state {
         assert!(s == State::AckConfirmed(e, t0, t1), "C10.rcvd.state.track.confirmed_unchanged");
     }
 
-    /// a received record is acknowledged, and remembers the number of the packet that carries the ACK,
-    /// keeping receive time / expiry and whether it was ack-eliciting.  (The carrying packet number is a
-    /// concrete value: it is only hashed into the set, and SipHash of a symbolic key does not terminate in CBMC.)
-    #[kani::proof]
-    #[kani::unwind(12)]
-    fn track_received_contract() {
-        let (recv, expire) = (any_instant(), any_instant());
-        let latest = any_opt_instant();
-        let mut s = State::PacketReceived(recv, latest, expire);
-        let pn: u64 = 7;
-        let r = s.track_packet_in_ack_frame(pn);
-        assert!(r, "C10.rcvd.state.track.received_is_acknowledged");
-        match &s {
-            State::AckSent(elicit, r0, e0, pns) => {
-                assert!(*elicit == latest.is_some() && *r0 == recv && *e0 == expire, "C10.rcvd.state.track.received_becomes_acksent_same_times");
-                assert!(pns.len() == 1, "C10.rcvd.state.track.remembers_one_carrying_packet");
-            }
-            _ => assert!(false, "C10.rcvd.state.track.received_becomes_acksent"),
-        }
-    }
+    // (PacketReceived -> AckSent builds a HashSet: SipHash with symbolic RandomState keys does not finish in
+    //  CBMC within 10 min even for a concrete packet number -- that arm is listed unverified in unit.json)
 
     /// when may `rotate_queue` drop a record from the front: a record whose packet was received but whose
     /// acknowledgement is not yet confirmed is never dropped (it would otherwise stop being acknowledged and
